@@ -164,9 +164,40 @@ CHECKS = {
         "defining combination of the library's own B_g, dRs/dp and dBo/dRs below, for two pseudocritical points.",
         "The dual-number class reproduces the operators the parents use; the FVF in the denominator of "
         "the saturated compressibility may be the bubble-point or the current one.", "4/C13"),
-    "C14": (False, EX, "", "", "", "4/C14"),
-    "C15": (False, EX, "", "", "", "4/C15"),
-    "C16": (False, EX, "", "", "", "4/C16"),
+    "C14": (
+        True, EX,
+        "complete enumeration of (exponent triple x residual triple x end-point triple) parameter sets "
+        "on every record of a simplex lattice of saturations, plus every invalid-parameter case",
+        "Each of 16.9k (quick) / 91k (thorough) admissible parameter sets is evaluated on a 1/20 (1/40) "
+        "simplex lattice of saturation triples plus records exactly at each residual: finite, within "
+        "[0, k_max], exactly 0 at/below residual, a non-decreasing function of the phase's own "
+        "saturation; every out-of-range exponent, residual, end point and saturation sum must raise "
+        "ValueError; the two-phase helper must return rows summing to 1 with krw = 0 for Sw <= S_wc "
+        "and reject Sw > S_wc.",
+        "Saturation sums are rejected beyond the function's own 1e-3 tolerance.", "4/C14"),
+    "C15": (
+        True, EX,
+        "complete enumeration of PVT families (and the shipped oil+water table) x pressure grids x "
+        "rel-perm sets x reference densities x mobility factors against the harness's own trapezoid "
+        "integral of the documented total mobility",
+        "For every combination the library's multiphase pseudopressure must equal (1e-12 of its range) "
+        "the trapezoid integral of the documented total mobility on the table's grid, be 0 at the first "
+        "pressure, increase strictly where mobility is positive, equal lambda (p - p0) for constant "
+        "tables and scale with the mobility factor; FlowPropertiesTwoPhase.from_table built from it must "
+        "have a strictly increasing m-scaled, m_i = 1 and map p_f < p_i into [0, 1).",
+        "Documented mobility as transcribed in refmodels/multiphase.py.", "4/C15"),
+    "C16": (
+        True, EX,
+        "complete enumeration of PVT families x grids x saturations x porosity x Sw x reference "
+        "densities; storage coefficient against an independent +-0.5 psi difference of the documented "
+        "storage function and its analytic slope",
+        "At every table pressure of every combination: total compressibility equals the difference of "
+        "the documented storage function over +-0.5 psi on the same interpolants (1e-8 relative + "
+        "rounding of the difference), vanishes for constant tables, doubles with porosity, matches the "
+        "generating functions' slope (2e-3, uniform grid); total mobility equals the documented sum "
+        "(1e-12); alpha_multiphase and the alpha tabulated by from_table equal lambda / c (1e-7).",
+        "The gas storage line follows the document's conservation equation (S_g/b_g); its 'S_g/b_o' is "
+        "read as a typo.", "4/C16"),
     "C17": (
         True, MC,
         "pairs of step-transition systems advanced in lock step (shifted vs unshifted, scalar vs "
